@@ -1,8 +1,16 @@
 //! C17: MemoryStore correspondence. Case format: see coq/C17/Glue.v.
+//!
+//! Three kinds of cases share this stream (the first number tells them apart):
+//! * legacy (first number = max_records): the store on the real clock, expiries far from `now`;
+//! * `TIMED_TAG`: the store on a logical clock (hook `store_clock`, 1 unit = 1 ms) with expiries
+//!   at, just before and just after the clock reading, plus the refresh machinery
+//!   (`put_local_provider` quorum, `next_action` under tokio's paused clock) and direct calls of
+//!   `Record::is_expired` / `ProviderRecord::is_expired`;
+//! * `KAD_TAG`: the real `Kademlia::run` loop around the store (see c17_kad.rs).
 use crate::util::*;
 use litep2p::{
     protocol::libp2p::kademlia::{
-        verif::{MemoryStore, MemoryStoreConfig, ProviderRecord, StoreKey},
+        verif::{store_clock, MemoryStore, MemoryStoreAction, MemoryStoreConfig, ProviderRecord, StoreKey},
         ContentProvider, Quorum, Record,
     },
     PeerId,
@@ -14,16 +22,19 @@ use std::{
     time::{Duration, Instant},
 };
 
-const NKEYS: usize = 8;
-const NPROVS: usize = 10;
+pub const NKEYS: usize = 8;
+pub const NPROVS: usize = 10;
+pub const TIMED_TAG: u64 = 9001;
+pub const KAD_TAG: u64 = 9002;
+pub const DEFAULTS_TAG: u64 = 9003;
 
-struct World {
-    base: Instant,
-    keys: Vec<StoreKey>,
-    peers: Vec<PeerId>,
+pub struct World {
+    pub base: Instant,
+    pub keys: Vec<StoreKey>,
+    pub peers: Vec<PeerId>,
     /// rank[k][p] = 1 + rank of distance(peer p, key k) among all peers
-    rank: Vec<Vec<u64>>,
-    addrs: Vec<Multiaddr>,
+    pub rank: Vec<Vec<u64>>,
+    pub addrs: Vec<Multiaddr>,
 }
 
 impl World {
@@ -48,11 +59,14 @@ impl World {
                 })
                 .collect();
             ds.sort();
+            // the model receives ranks instead of 256-bit distances: that is faithful only if
+            // distinct peers have distinct distances (distinct SHA-256 hashes)
+            assert!(ds.windows(2).all(|x| x[0].0 != x[1].0), "two peers at the same distance");
             for (r, (_, pi)) in ds.iter().enumerate() {
                 rank[ki][*pi] = r as u64 + 1;
             }
         }
-        let addrs = (0..40u16)
+        let addrs = (0..80u16)
             .map(|i| format!("/ip4/10.0.0.{}/tcp/{}", i + 1, 1000 + i).parse().unwrap())
             .collect();
         World { base, keys, peers, rank, addrs }
@@ -67,11 +81,11 @@ impl World {
         t.duration_since(self.base).as_micros() as u64
     }
 
-    fn key_index(&self, k: &StoreKey) -> u64 {
+    pub fn key_index(&self, k: &StoreKey) -> u64 {
         self.keys.iter().position(|x| x == k).unwrap() as u64
     }
 
-    fn peer_index(&self, p: &PeerId) -> u64 {
+    pub fn peer_index(&self, p: &PeerId) -> u64 {
         self.peers.iter().position(|x| x == p).unwrap() as u64
     }
 }
@@ -117,6 +131,10 @@ fn gen_case(rng: &mut Rng, w: &World, thorough: bool) -> Vec<u64> {
 }
 
 fn dump(w: &World, s: &MemoryStore, out: &mut Vec<u64>) {
+    dump_with(w, s, out, &|t| w.micros(t))
+}
+
+fn dump_with(w: &World, s: &MemoryStore, out: &mut Vec<u64>, units: &dyn Fn(Instant) -> u64) {
     let mut recs: Vec<[u64; 4]> = s
         .verif_records()
         .values()
@@ -125,7 +143,7 @@ fn dump(w: &World, s: &MemoryStore, out: &mut Vec<u64>) {
                 w.key_index(&r.key),
                 r.value.first().copied().unwrap_or(0) as u64,
                 r.value.len() as u64,
-                r.expires.map(|t| w.micros(t) + 1).unwrap_or(0),
+                r.expires.map(|t| units(t) + 1).unwrap_or(0),
             ]
         })
         .collect();
@@ -247,13 +265,328 @@ fn run_case(w: &World, c: &[u64]) -> Option<Vec<u64>> {
     Some(out)
 }
 
+pub fn quorum_of(code: u64) -> Quorum {
+    match code {
+        0 => Quorum::All,
+        1 => Quorum::One,
+        n => Quorum::N(std::num::NonZeroUsize::new((n - 1) as usize).unwrap()),
+    }
+}
+
+pub fn quorum_code(q: Quorum) -> u64 {
+    match q {
+        Quorum::All => 0,
+        Quorum::One => 1,
+        Quorum::N(n) => n.get() as u64 + 1,
+    }
+}
+
+/// Resets the store clock override when a case ends (also by a panic).
+struct ClockGuard;
+impl Drop for ClockGuard {
+    fn drop(&mut self) {
+        store_clock::set(None);
+    }
+}
+
+fn paused_runtime() -> tokio::runtime::Runtime {
+    tokio::runtime::Builder::new_current_thread().enable_time().start_paused(true).build().unwrap()
+}
+
+// ------------------------------------------------------------------ timed stream
+
+/// cfg(6) interval nops (tag now args..)*; see `p_top` in coq/C17/Glue.v. One unit = 1 ms.
+fn gen_timed(rng: &mut Rng, w: &World, thorough: bool) -> Vec<u64> {
+    let max_records = rng.pick(&[0u64, 1, 2, 3, 1024]);
+    let max_size = rng.pick(&[0u64, 1, 5, 6, 65 * 1024]);
+    let max_keys = rng.pick(&[0u64, 1, 2, 3, 1024]);
+    let max_addrs = rng.pick(&[0u64, 1, 2, 30]);
+    let max_per_key = if rng.chance(3) { 0 } else { rng.pick(&[1u64, 1, 2, 3, 20]) };
+    let ttl = rng.pick(&[0u64, 1, 2, 5, 40]);
+    let interval = rng.pick(&[0u64, 1, 3, 10, 25]);
+    let nkeys = rng.range(1, NKEYS as u64);
+    let nprovs = rng.range(2, NPROVS as u64);
+    let nops = if thorough { rng.range(20, 400) } else { rng.range(10, 100) };
+    let mut c = vec![TIMED_TAG, max_records, max_size, max_keys, max_addrs, max_per_key, ttl, interval, nops];
+    let mut now = rng.below(4);
+    // expiry of a record: mostly within a few units of the clock reading
+    let near = |rng: &mut Rng, now: u64| -> u64 {
+        match rng.below(12) {
+            0 | 1 => 0, // None
+            2 => 1 + now.saturating_sub(1),
+            3 | 4 => 1 + now,
+            5 | 6 => 1 + now + 1,
+            7 => 1 + now + 2,
+            8 => 1 + now + rng.range(3, 12),
+            9 => 1 + now.saturating_sub(rng.range(2, 6)),
+            _ => 1 + now + rng.range(0, 3),
+        }
+    };
+    for _ in 0..nops {
+        now += rng.pick(&[0u64, 0, 0, 1, 1, 1, 2, 3, 5, 12]);
+        let k = rng.below(nkeys);
+        match rng.below(100) {
+            0..=14 => c.extend([0, now, k]),
+            15..=34 => {
+                let len = rng.pick(&[0u64, 1, 3, 4, 5, 6, 7]);
+                let val = if len == 0 { 0 } else { rng.below(200) };
+                let e = near(rng, now);
+                c.extend([1, now, k, val, len, e]);
+            }
+            35..=49 => c.extend([2, now, k]),
+            50..=69 => {
+                let p = rng.range(1, nprovs - 1);
+                let na = rng.pick(&[0u64, 1, 2, 3, 35]);
+                c.extend([3, now, k, p, w.rank[k as usize][p as usize], na]);
+            }
+            70..=79 => c.extend([4, now, k, w.rank[k as usize][0], rng.pick(&[0u64, 1, 2, 3, 21])]),
+            80..=83 => c.extend([5, now, k, w.rank[k as usize][0]]),
+            84..=93 => c.extend([6, now]),
+            94..=96 => {
+                let e = near(rng, now);
+                c.extend([7, now, e]);
+            }
+            _ => {
+                let e = near(rng, now).max(1) - 1;
+                c.extend([8, now, e]);
+            }
+        }
+    }
+    c
+}
+
+fn run_timed(w: &World, c: &[u64]) -> Option<Vec<u64>> {
+    if c.len() < 9 || c[0] != TIMED_TAG {
+        return None;
+    }
+    let rt = paused_runtime();
+    rt.block_on(tokio::task::unconstrained(run_timed_async(w, c)))
+}
+
+async fn run_timed_async(w: &World, c: &[u64]) -> Option<Vec<u64>> {
+    let _guard = ClockGuard;
+    let base = Instant::now();
+    let at = |t: u64| base + Duration::from_millis(t);
+    let units = |t: Instant| t.saturating_duration_since(base).as_millis() as u64;
+    let config = MemoryStoreConfig {
+        max_records: c[1] as usize,
+        max_record_size_bytes: c[2] as usize,
+        max_provider_keys: c[3] as usize,
+        max_provider_addresses: c[4] as usize,
+        max_providers_per_key: c[5] as usize,
+        provider_refresh_interval: Duration::from_millis(c[7]),
+        provider_ttl: Duration::from_millis(c[6]),
+    };
+    let mut store = MemoryStore::with_config(w.peers[0], config);
+    let nops = c[8] as usize;
+    let mut i = 9;
+    let mut out = vec![2u64];
+    let mut tokio_now = 0u64;
+    for _ in 0..nops {
+        let tag = *c.get(i)?;
+        let now = *c.get(i + 1)?;
+        if now > 1 << 40 {
+            return None;
+        }
+        store_clock::set(Some(at(now)));
+        if now > tokio_now {
+            tokio::time::advance(Duration::from_millis(now - tokio_now)).await;
+            tokio_now = now;
+        }
+        i += 2;
+        let key = |j: usize| -> Option<StoreKey> { w.keys.get(*c.get(j)? as usize).cloned() };
+        match tag {
+            0 => {
+                let key = key(i)?;
+                i += 1;
+                match store.get(&key) {
+                    None => out.extend([1, 0]),
+                    Some(r) => out.extend([
+                        1,
+                        1,
+                        w.key_index(&r.key),
+                        r.value.first().copied().unwrap_or(0) as u64,
+                        r.value.len() as u64,
+                        r.expires.map(|t| units(t) + 1).unwrap_or(0),
+                    ]),
+                }
+            }
+            1 => {
+                let key = key(i)?;
+                let (val, len, exp) = (*c.get(i + 1)?, *c.get(i + 2)?, *c.get(i + 3)?);
+                i += 4;
+                if len > 1 << 20 || exp > 1 << 40 {
+                    return None;
+                }
+                store.put(Record {
+                    key,
+                    value: vec![val as u8; len as usize],
+                    publisher: None,
+                    expires: if exp == 0 { None } else { Some(at(exp - 1)) },
+                });
+                out.push(0);
+            }
+            2 => {
+                let key = key(i)?;
+                i += 1;
+                let ps = store.get_providers(&key);
+                out.extend([2, ps.len() as u64]);
+                for p in ps {
+                    out.extend([w.peer_index(&p.peer), p.addresses.len() as u64]);
+                }
+            }
+            3 => {
+                let key = key(i)?;
+                let (p, na) = (*c.get(i + 1)? as usize, *c.get(i + 3)?);
+                i += 4;
+                let ok = store.put_provider(
+                    key,
+                    ContentProvider {
+                        peer: *w.peers.get(p)?,
+                        addresses: w.addrs.iter().take(na as usize).cloned().collect(),
+                    },
+                );
+                out.extend([3, ok as u64]);
+            }
+            4 => {
+                let key = key(i)?;
+                let q = *c.get(i + 2)?;
+                i += 3;
+                if q > 1 << 30 {
+                    return None;
+                }
+                let ok = store.put_local_provider(key, quorum_of(q));
+                out.extend([3, ok as u64]);
+            }
+            5 => {
+                let key = key(i)?;
+                i += 2;
+                let r = catch_unwind(AssertUnwindSafe(|| store.remove_local_provider(key)));
+                out.extend([3, r.is_ok() as u64]);
+            }
+            6 => {
+                // `next_action()` until it stays Pending
+                let mut some: Vec<[u64; 2]> = Vec::new();
+                let mut gone = 0u64;
+                let mut pending = 0;
+                let mut rounds = 0;
+                while pending < 2 && rounds < 100_000 {
+                    rounds += 1;
+                    let r = {
+                        let fut = store.next_action();
+                        tokio::pin!(fut);
+                        futures::poll!(fut)
+                    };
+                    match r {
+                        std::task::Poll::Ready(Some(MemoryStoreAction::RefreshProvider { provided_key, provider, quorum })) => {
+                            pending = 0;
+                            // the provider of a refresh is always the local peer without addresses
+                            let okp = provider.peer == w.peers[0] && provider.addresses.is_empty();
+                            some.push([w.key_index(&provided_key), if okp { quorum_code(quorum) } else { 777_777 }]);
+                        }
+                        std::task::Poll::Ready(None) => {
+                            pending = 0;
+                            gone += 1;
+                        }
+                        std::task::Poll::Pending => pending += 1,
+                    }
+                }
+                some.sort();
+                out.extend([4, some.len() as u64]);
+                for x in some {
+                    out.extend(x);
+                }
+                out.push(gone);
+            }
+            7 => {
+                let e = *c.get(i)?;
+                i += 1;
+                if e > 1 << 40 {
+                    return None;
+                }
+                let r = Record {
+                    key: w.keys[0].clone(),
+                    value: vec![],
+                    publisher: None,
+                    expires: if e == 0 { None } else { Some(at(e - 1)) },
+                };
+                out.extend([5, r.is_expired(at(now)) as u64]);
+            }
+            8 => {
+                let e = *c.get(i)?;
+                i += 1;
+                if e > 1 << 40 {
+                    return None;
+                }
+                let r = ProviderRecord { key: w.keys[0].clone(), provider: w.peers[1], addresses: vec![], expires: at(e) };
+                out.extend([5, r.is_expired(at(now)) as u64]);
+            }
+            _ => return None,
+        }
+        dump_with(w, &store, &mut out, &units);
+        let mut qs: Vec<[u64; 2]> = store
+            .verif_local_providers_full()
+            .iter()
+            .map(|(k, p, q)| {
+                let okp = p.peer == w.peers[0] && p.addresses.is_empty();
+                [w.key_index(k), if okp { quorum_code(*q) } else { 777_777 }]
+            })
+            .collect();
+        qs.sort();
+        out.push(qs.len() as u64);
+        for x in qs {
+            out.extend(x);
+        }
+        out.push(store.verif_pending_refresh_len() as u64);
+    }
+    if i != c.len() {
+        return None;
+    }
+    Some(out)
+}
+
+/// Runs one case of any kind; returns the case as executed (a Kademlia case comes back with the
+/// observed refresh order and this world's distances) and the trace.
+fn run_any(w: &World, rt: &tokio::runtime::Runtime, c: &[u64]) -> (Vec<u64>, Vec<u64>) {
+    let r = catch_unwind(AssertUnwindSafe(|| match c.first() {
+        Some(&TIMED_TAG) => run_timed(w, c).map(|t| (c.to_vec(), t)),
+        Some(&KAD_TAG) => crate::c17_kad::run(w, c),
+        Some(&DEFAULTS_TAG) if c.len() == 1 => {
+            // the compiled defaults, against the constants the translator reads from config.rs
+            let d = MemoryStoreConfig::default();
+            Some((
+                c.to_vec(),
+                vec![
+                    4,
+                    d.max_records as u64,
+                    d.max_record_size_bytes as u64,
+                    d.max_provider_keys as u64,
+                    d.max_provider_addresses as u64,
+                    d.max_providers_per_key as u64,
+                    d.provider_refresh_interval.as_secs(),
+                    d.provider_ttl.as_secs(),
+                ],
+            ))
+        }
+        _ => {
+            let _g = rt.enter();
+            run_case(w, c).map(|t| (c.to_vec(), t))
+        }
+    }));
+    store_clock::set(None);
+    match r {
+        Ok(Some(x)) => x,
+        Ok(None) => (c.to_vec(), vec![0]),
+        Err(_) => (c.to_vec(), vec![PANIC_MARK]),
+    }
+}
+
 pub fn main(args: &Args) {
     let seed = args.u64("seed", 1);
     let ncases = args.u64("cases", 100);
     let thorough = args.str("tier") == Some("thorough");
     let mut out = Outputs::open(args);
     let rt = tokio::runtime::Builder::new_current_thread().enable_all().build().unwrap();
-    let _g = rt.enter();
     let mut rng = Rng::new(seed);
     let w = World::new(&mut rng);
     // "past" expiries are base + <1 ms, "now" must lie after all of them
@@ -269,26 +602,78 @@ pub fn main(args: &Args) {
         // stored cases carry distance ranks of the world they were found in; they are
         // re-ranked for this run's peers so that they stay consistent with the real hashes
         let c = rerank(&w, c);
-        let t = catch_unwind(AssertUnwindSafe(|| run_case(&w, &c)))
-            .unwrap_or(Some(vec![PANIC_MARK]))
-            .unwrap_or(vec![0]);
+        let (c, t) = run_any(&w, &rt, &c);
         out.emit(&c, &t);
     }
     if args.str("replay").is_some() {
         return;
     }
+    let (c, t) = run_any(&w, &rt, &[DEFAULTS_TAG]);
+    out.emit(&c, &t);
+    let only = args.str("kind");
     for _ in 0..ncases {
         let mut r = rng.fork();
-        let c = gen_case(&mut r, &w, thorough);
-        let t = catch_unwind(AssertUnwindSafe(|| run_case(&w, &c)))
-            .unwrap_or(Some(vec![PANIC_MARK]))
-            .unwrap_or(vec![0]);
+        let kind = match only {
+            Some("legacy") => 0,
+            Some("timed") => 40,
+            Some("kad") => 80,
+            _ => r.below(100),
+        };
+        let c = match kind {
+            0..=39 => gen_case(&mut r, &w, thorough),
+            40..=74 => gen_timed(&mut r, &w, thorough),
+            _ => crate::c17_kad::gen_case(&mut r, &w, thorough),
+        };
+        let (c, t) = run_any(&w, &rt, &c);
         out.emit(&c, &t);
     }
 }
 
 /// Rewrites the distance arguments of a stored case with this run's ranks.
 fn rerank(w: &World, c: &[u64]) -> Vec<u64> {
+    match c.first() {
+        Some(&TIMED_TAG) => rerank_timed(w, c),
+        Some(&KAD_TAG) => c.to_vec(), // distances and refresh order are filled in by the run
+        _ => rerank_legacy(w, c),
+    }
+}
+
+fn rerank_timed(w: &World, c: &[u64]) -> Vec<u64> {
+    let mut c = c.to_vec();
+    let mut i = 9;
+    while i + 1 < c.len() {
+        let k = c.get(i + 2).copied().unwrap_or(0) as usize % NKEYS;
+        match c[i] {
+            0 | 2 => i += 3,
+            1 => i += 6,
+            3 => {
+                if i + 4 < c.len() {
+                    let p = c[i + 3] as usize % NPROVS;
+                    c[i + 4] = w.rank[k][p];
+                }
+                i += 6;
+            }
+            4 => {
+                if i + 3 < c.len() {
+                    c[i + 3] = w.rank[k][0];
+                }
+                i += 5;
+            }
+            5 => {
+                if i + 3 < c.len() {
+                    c[i + 3] = w.rank[k][0];
+                }
+                i += 4;
+            }
+            6 => i += 2,
+            7 | 8 => i += 3,
+            _ => break,
+        }
+    }
+    c
+}
+
+fn rerank_legacy(w: &World, c: &[u64]) -> Vec<u64> {
     let mut c = c.to_vec();
     if c.len() < 7 {
         return c;
